@@ -566,7 +566,46 @@ def run(ctx: Ctx):
             death_run(ctx, spec, base, site, wd)
         if i in (0, 3) or ctx.thorough:
             writes_off(ctx, spec, wd)
+    zero_survivor_runs(ctx, work)
     shutil.rmtree(work, ignore_errors=True)
+
+
+def zero_survivor_runs(ctx, work):
+    """A run in which no trajectory survives stops after the geometry stage: with staged writing on, the file must be the
+    readable (empty) table of exactly that stage and of THIS run — on a fresh path and on a path that holds an earlier run."""
+    from astropy.table import Table
+    rng = ctx.rng
+    for mode in ("Diffuse", "Target"):
+        wd = os.path.join(work, f"zero-{mode}")
+        os.makedirs(wd)
+        spec0 = {"mode": mode, "optical": True, "radio": True, "spectrum": "mono", "n": 0, "seed": int(rng.integers(2**31)), "loge": 9.0}
+        earlier = {**spec0, "n": 120 if mode == "Diffuse" else 300}
+        for label, prep in (("fresh-path", False), ("path-holds-an-earlier-run", True)):
+            path = os.path.join(wd, f"{label}.fits")
+            if prep:
+                run_compute(earlier, path, True)
+            case = {"mode": mode, "thrown_events": 0, "path": label}
+            ctx.case(("zero-survivors", mode, label), case)
+            try:
+                tab = run_compute(spec0, path, True)
+            except Exception as e:  # noqa
+                ctx.violation("compute", "zero-survivors-raises", f"{type(e).__name__}: {str(e)[:120]}", case)
+                continue
+            want_cols = list(tab.colnames)
+            if not os.path.exists(path):
+                ctx.violation("StagedWriter", "zero-survivors-no-file", "staged writing is on but no file was written for the geometry stage of a run without survivors",
+                              {**case, "table_columns": want_cols})
+                continue
+            try:
+                f = Table.read(path)
+            except Exception as e:  # noqa
+                ctx.violation("StagedWriter", "zero-survivors-unreadable", f"file is not a readable FITS table: {type(e).__name__}", case)
+                continue
+            if list(f.colnames) != want_cols or len(f) != len(tab):
+                ctx.violation("StagedWriter", "zero-survivors-file-is-not-this-run", "the file left on disk is not the table of the stages completed by this run",
+                              {**case, "file_columns": list(f.colnames), "file_rows": int(len(f)), "table_columns": want_cols, "table_rows": int(len(tab))})
+            elif str(f.meta.get("SIMTIME", f.meta.get("simTime"))) != str(tab.meta["simTime"][0] if isinstance(tab.meta["simTime"], tuple) else tab.meta["simTime"]):
+                ctx.violation("StagedWriter", "zero-survivors-file-is-not-this-run", "the header on disk is not this run's header", case)
 
 
 def search(ctx: Ctx):
